@@ -21,7 +21,11 @@ Inductive act :=
 | ARLock (l : N) | ARUnlock (l : N)        (* read side of a sync.RWMutex *)
 | ASend (c : N) | ARecv (c : N)            (* buffered channel held in a struct field; the payload is the sender's id *)
 | ASendM (c : N) (w : who) | ARecvM (c : N) (w : who)  (* reply channel carried inside a message (class c, one instance per owner) *)
-| AAcc (xs : list (N * bool))              (* a synchronisation-free region that may access the fields xs (field, is-write) *)
+| AAcc (xs : list (N * bool * list (N * bool)))
+    (* a region without blocking operations that may access the fields xs: (field, is-write, leaf
+       locks held at the access, each with is-write-mode).  Leaf locks are locks whose critical
+       sections contain no other blocking operation (checked by the translator); they are not part
+       of the explored state, only of the race predicate *)
 | ATau.
 
 Inductive instr :=
@@ -255,10 +259,16 @@ Definition pending_client (S : sys) (s : state) : bool :=
 Definition deadlocked_b (S : sys) (s : state) : bool :=
   match succs S s with [] => pending_client S s | _ => false end.
 
-Definition conflict (xs ys : list (N * bool)) : bool :=
-  existsb (fun '(f, w) => existsb (fun '(g, v) => (f =? g) && (w || v)) ys) xs.
+(* two locksets exclude each other when they share a lock that one side holds in write mode *)
+Definition excl (h1 h2 : list (N * bool)) : bool :=
+  existsb (fun a : N * bool => existsb (fun b : N * bool => (fst a =? fst b) && (snd a || snd b)) h2) h1.
 
-Definition acc_of (i : instr) : list (N * bool) :=
+Definition conflict (xs ys : list (N * bool * list (N * bool))) : bool :=
+  existsb (fun x : N * bool * list (N * bool) =>
+    existsb (fun y : N * bool * list (N * bool) =>
+      (fst (fst x) =? fst (fst y)) && (snd (fst x) || snd (fst y)) && negb (excl (snd x) (snd y))) ys) xs.
+
+Definition acc_of (i : instr) : list (N * bool * list (N * bool)) :=
   match i with IOp (AAcc xs) _ => xs | _ => [] end.
 
 (* two processes are inside synchronisation-free regions that touch the same field, one of them writing *)
@@ -351,7 +361,7 @@ Definition tmem (s : state) (t : tree) : bool :=
 (* the keys are scrambled a little so that the insertion order of a breadth-first search does not
    degenerate the (unbalanced) tree: the first key digit is a hash of the rest *)
 Definition hash (k : list N) : N :=
-  fold_left (fun h x => (h * 31 + x + 7) mod 1048573) k 17.
+  fold_left (fun h x => N.land (N.lxor (N.shiftl h 3) (h + x + 5)) 1048575) k 17.
 Definition skey (s : state) : list N := let k := key s in hash k :: k.
 
 Definition tmem' (s : state) (t : tree) : bool :=
